@@ -224,10 +224,12 @@ def _run_chunk(cmd, lines, timeout, env=None, limit_as=None, stack_unlimited=Fal
 def run_batch(cmd, lines, timeout=10, workers=NPROC, env=ENV, limit_as=None, stack_unlimited=False, min_chunk=50):
     if not lines:
         return []
-    nchunks = max(1, min(workers, len(lines) // min_chunk or 1))
+    # several chunks per worker: expensive lines tend to be neighbours, and one slow chunk would otherwise
+    # keep a single process busy long after the others are done
+    nchunks = max(1, min(workers * 6, len(lines) // min_chunk or 1))
     size = (len(lines) + nchunks - 1) // nchunks
     chunks = [lines[i:i + size] for i in range(0, len(lines), size)]
-    with ThreadPoolExecutor(max_workers=len(chunks)) as ex:
+    with ThreadPoolExecutor(max_workers=min(workers, len(chunks))) as ex:
         res = list(ex.map(lambda ch: _run_chunk(cmd, ch, timeout, env, limit_as, stack_unlimited), chunks))
     out = []
     for r in res:
